@@ -108,7 +108,11 @@ def _realistic_merge(rng, mh, rid, parents, ts):
             if fid in byid and fid in oid:
                 p = byid[fid]
                 if tree[p][1] == "file" and otree[oid[fid]][1] == "file":
-                    c = f"{rid}:merged {fid}\n"
+                    # either the other side's text verbatim (the commit may then carry the
+                    # other side's file version over without a new per-file node) or new text
+                    c = otree[oid[fid]][2] if rng.random() < 0.5 else f"{rid}:merged {fid}\n"
+                    if c == tree[p][2]:
+                        continue
                     actions.append(["modify", p, c])
                     tree[p] = [fid, "file", c]
             elif fid in oid and fid not in byid:
@@ -305,3 +309,50 @@ def dag_shrinks(plan, tips=(), tipmaps=()):
             p = copy.deepcopy(plan)
             p["specs"][i]["parents"] = s["parents"][:j] + s["parents"][j + 1 :]
             yield p
+
+
+# ------------------------------------------------------------------------------------
+# laws of dotted revision numbers (shared by C22 and C25)
+
+
+def revno_law_problems(gm, tip, M, old=None):
+    """Check a revision-id -> dotted-revno map against the laws the property states;
+    returns [(law, detail), ...] (empty = all laws hold).  `old`: the map before a
+    left-hand extension (its numbers must be unchanged)."""
+    probs = []
+    anc = gm.ancestry(tip)
+    lh = gm.lefthand(tip)
+    if set(M) != set(anc):
+        probs.append(("total", f"map keys differ from the tip's ancestry: extra={sorted(set(M) - set(anc))} missing={sorted(set(anc) - set(M))}"))
+    inv = {}
+    for r, v in M.items():
+        if v in inv:
+            probs.append(("injective", f"{r} and {inv[v]} are both numbered {v}"))
+        inv[v] = r
+    pos = {r: i + 1 for i, r in enumerate(lh)}
+    for r, v in M.items():
+        if len(v) not in (1, 3):
+            probs.append(("shape", f"{r} numbered {v}"))
+            continue
+        if (len(v) == 1) != (r in pos):
+            probs.append(("mainline", f"{r} numbered {v} but left-hand history is {lh}"))
+            continue
+        if len(v) == 1 and v[0] != pos[r]:
+            probs.append(("mainline", f"{r} is left-hand revision {pos[r]} but numbered {v}"))
+        if len(v) == 3:
+            x, y, z = v
+            p = gm.lh_parent(r) if r in gm.mh.revs else None
+            if p is not None and p not in gm.mh.revs:
+                continue  # ghost left-hand parent: not generated
+            if z > 1:
+                if p is None or M.get(p) != (x, y, z - 1):
+                    probs.append(("line", f"{r} numbered {v} but its left-hand parent {p} is numbered {M.get(p)}"))
+            else:
+                want = M[p][0] if (p is not None and p in M) else 0
+                if x != want:
+                    probs.append(("base", f"{r} numbered {v} but its left-hand parent {p} is numbered {M.get(p) if p else None}"))
+    if old is not None:
+        for r, v in old.items():
+            if M.get(r) != v:
+                probs.append(("stable", f"{r} was numbered {v} before the left-hand extension and is {M.get(r)} after it"))
+    return probs
